@@ -1,6 +1,7 @@
 package main
 
 import (
+	"bytes"
 	"fmt"
 	"net"
 	"os"
@@ -27,7 +28,7 @@ import (
 //	     responsive (answers / echoes, closes when the proxy closes), silent (accepts, never answers, never closes) or closed (refuses)
 //	   B  another socket occupies the service's port (bind will be retried)      b  it is released
 //	   Pe Pb Pk  arm a park at: entry of Serve / between bind and publication of the listener / in Stop after it took the registry     Re Rb Rk  release
-//	   S  Start        o  open a client connection and send one request / some bytes      x<i> the client closes connection i
+//	   S  Start        o  open a client connection and send one request / some bytes (O: 40 pipelined requests)      x<i> the client closes connection i
 //	   D  StopListen   K  Stop (asynchronously)      w  wait 60 ms
 //	   -> stop=<ok|hangs|none> port=<closed|open|unbound> served=<per connection: y served, n closed at once, r refused> down=<closed>/<opened> up=<closed>/<accepted> leaked=<0|n goroutines>
 //	      measured 2.5 s after Stop was called (everything parked is released right after K … w)
@@ -200,7 +201,7 @@ func (c09child) life(f []string) string {
 				}
 				time.Sleep(40 * time.Millisecond)
 			}
-		case "o":
+		case "o", "O":
 			c, err := net.DialTimeout("tcp", svcAddr, 300*time.Millisecond)
 			if err != nil || blocker != nil {
 				if c != nil {
@@ -214,7 +215,11 @@ func (c09child) life(f []string) string {
 			if proto == "T" {
 				c.Write([]byte("hello"))
 			} else {
-				c.Write([]byte("*2\r\n$3\r\nget\r\n$1\r\nk\r\n"))
+				n := 1
+				if t == "O" {
+					n = 40 // more than the 32 replies a session keeps in order: its reader ends up waiting for room, not reading
+				}
+				c.Write(bytes.Repeat([]byte("*2\r\n$3\r\nget\r\n$1\r\nk\r\n"), n))
 			}
 			// served = the proxy does not close it at once
 			c.SetReadDeadline(time.Now().Add(120 * time.Millisecond))
@@ -674,6 +679,7 @@ func (c *c09) Gen(r *hx.Run) {
 	scripts := []string{
 		"S K", "S w K", "K", "Pe S K w Re", "Pe S D w Re K", "B S K", "B S w K", "B S D w K", "B S w b o K", "Pb S K w Rb", "Pb S D w Rb o K", "Pb S K w Rb o", "Pb S w Rb o K",
 		"Pe S D w Re o K", "B S D w b o K", "S Pk K o Rk", "S o Pk K o w Rk", "S Pk K o o Rk", "S o K", "S o o K", "S o D o K", "S o D x0 K", "S D o K", "S o x0 K", "S o o x0 D o K", "S D", "S o D",
+		"S O K", "S O w K", "S o O D K", "S O x0 K", "S O O K",
 	}
 	for _, proto := range []string{"T", "R"} {
 		for _, mode := range []string{"r", "s", "c"} {
@@ -723,7 +729,7 @@ func (c *c09) Gen(r *hx.Run) {
 		for j := 0; j < rng.Intn(7); j++ {
 			switch x := rng.Intn(10); {
 			case x < 4:
-				toks = append(toks, "o")
+				toks = append(toks, []string{"o", "o", "o", "O"}[rng.Intn(4)])
 				opened++
 			case x < 5 && opened > 0:
 				toks = append(toks, fmt.Sprintf("x%d", rng.Intn(opened)))
